@@ -105,3 +105,52 @@ pub fn frag_roundtrip(args: &[&str]) -> String {
     }
     format!("{} {}", frags.len(), out.join(","))
 }
+
+// dgram_hop <mtu> <ids: shared:<start> | own | i,j,..> <writes sid/addr/body;...> <sched k.i,...>
+// the sending half of QuicFrameWriter::write (stamp the session id, check_encodable, make_fragments with the id the case gives
+// the write) for every write, the wire the schedule induces, and one Fragments<Frame> table for all of them
+pub fn dgram_hop(args: &[&str]) -> String {
+    let mtu: usize = args[0].parse().unwrap();
+    let writes: Vec<Vec<&str>> = args[2].split(';').map(|w| w.split('/').collect()).collect();
+    let ids: Vec<u16> = if let Some(start) = args[1].strip_prefix("shared:") {
+        let start: u32 = start.parse().unwrap();
+        (0..writes.len() as u32).map(|k| ((start + k) % 65536) as u16).collect()
+    } else if args[1] == "own" {
+        let mut seen: std::collections::HashMap<&str, u32> = Default::default();
+        writes
+            .iter()
+            .map(|w| {
+                let c = seen.entry(w[0]).or_insert(0);
+                let id = (*c % 65536) as u16;
+                *c += 1;
+                id
+            })
+            .collect()
+    } else {
+        args[1].split(',').map(|i| i.parse().unwrap()).collect()
+    };
+    let mut sent: Vec<Vec<Bytes>> = Vec::new();
+    for (w, id) in writes.iter().zip(ids.iter()) {
+        let mut f = super::ops_codec::parse_frame_pub("0", w[1], if w[2] == "-" { "" } else { w[2] });
+        f.session_id = w[0].parse().unwrap();
+        if f.check_encodable().is_err() {
+            return "SEND-ERR".into();
+        }
+        let mut next = *id;
+        sent.push(Fragments::<Frame>::make_fragments(mtu, &mut next, f).collect());
+    }
+    let mut table: Fragments<Frame> = Fragments::new(Duration::from_secs(3600));
+    let mut out = Vec::new();
+    if args[3] != "-" {
+        for e in args[3].split(',') {
+            let (k, i) = e.split_once('.').unwrap();
+            let (k, i): (usize, usize) = (k.parse().unwrap(), i.parse().unwrap());
+            let dg = sent.get(k).and_then(|frs| frs.get(i)).cloned().unwrap_or_default();
+            match table.reassemble(dg) {
+                None => out.push("-".to_string()),
+                Some(fr) => out.push(super::ops_codec::show_frame(&fr)),
+            }
+        }
+    }
+    format!("ids={} {}", ids.iter().map(|i| i.to_string()).collect::<Vec<_>>().join(","), out.join(","))
+}
